@@ -198,6 +198,10 @@ impl WalRecord {
                     .map_err(|_| Error::WalRecordTooLarge(u32::MAX))?;
                 out.extend_from_slice(&key_len.to_le_bytes());
                 out.extend_from_slice(key_bytes);
+                if value.nesting_depth() > PropertyValue::MAX_NESTING_DEPTH {
+                    // the decoder refuses deeper values: never log what replay could not read back
+                    return Err(Error::WalProtocol("property value nested too deeply"));
+                }
                 let value_bytes = value.encode();
                 out.extend_from_slice(&value_bytes);
             }
@@ -216,6 +220,10 @@ impl WalRecord {
                     .map_err(|_| Error::WalRecordTooLarge(u32::MAX))?;
                 out.extend_from_slice(&key_len.to_le_bytes());
                 out.extend_from_slice(key_bytes);
+                if value.nesting_depth() > PropertyValue::MAX_NESTING_DEPTH {
+                    // the decoder refuses deeper values: never log what replay could not read back
+                    return Err(Error::WalProtocol("property value nested too deeply"));
+                }
                 let value_bytes = value.encode();
                 out.extend_from_slice(&value_bytes);
             }
